@@ -27,4 +27,7 @@ class CellRangeSet""")]},
     {"id": "c18-default-marker-coordinate", "expect": "fire", "edits": [(X, '                attr_origins = "<skipped column>"\n            else:', '                attr_origins = anchor_cell.coordinate\n            else:')]},
     # neutral
     {"id": "c18-n-rename", "expect": "silent", "edits": [(X, "attr_origins", "origin_info", 10)]},
+    {"id": "c18-zero-cell-is-blank", "expect": "fire", "edits": [(X, '        return cell.value is None or str(cell.value).strip() == ""', '        value = cell.value\n        if not value:\n            return True\n        return isinstance(value, str) and not value.strip()')]},
+    {"id": "c18-whitespace-cell-is-data", "expect": "fire", "edits": [(X, '        return cell.value is None or str(cell.value).strip() == ""', '        return cell.value is None or str(cell.value) == ""')]},
+    {"id": "c18-n-blank-predicate-by-type", "expect": "silent", "edits": [(X, '        return cell.value is None or str(cell.value).strip() == ""', '        value = cell.value\n        if value is None:\n            return True\n        return isinstance(value, str) and not value.strip()')]},
 ]
